@@ -20,6 +20,7 @@ import (
 	"sort"
 	"strconv"
 	"strings"
+	"time"
 	"unicode/utf8"
 
 	"github.com/prometheus/common/expfmt"
@@ -99,6 +100,7 @@ var contentTypes = []string{"text/plain; version=0.0.4", "application/openmetric
 
 type obs struct {
 	ents     []string // Gallina terms
+	hung     bool
 	human    []string
 	n        int
 	ok       bool // ended with io.EOF
@@ -118,7 +120,24 @@ func lsetG(l labels.Labels) string {
 	return list(it)
 }
 
-func drive(payload []byte, format int, o opts) (r obs) {
+var hangs = 0
+
+// drive runs the real parser under a watchdog: a parser that does not return within the limit is
+// reported as hung (its goroutine cannot be stopped and keeps spinning until the harness exits;
+// after two hangs StartTimestamp is no longer called on mutated OpenMetrics payloads).
+func drive(payload []byte, format int, o opts, valid bool) obs {
+	ch := make(chan obs, 1)
+	go func() { ch <- drive0(payload, format, o, valid) }()
+	select {
+	case r := <-ch:
+		return r
+	case <-time.After(6 * time.Second):
+		hangs++
+		return obs{hung: true, panicked: "parser did not return within 6s"}
+	}
+}
+
+func drive0(payload []byte, format int, o opts, valid bool) (r obs) {
 	defer func() {
 		if p := recover(); p != nil {
 			r.panicked = fmt.Sprint(p)
@@ -135,7 +154,7 @@ func drive(payload []byte, format int, o opts) (r obs) {
 		r.panicked = fmt.Sprint("textparse.New: ", err)
 		return r
 	}
-	callST := format == fmtProto || (format == fmtOM && o.SkipST)
+	callST := format == fmtProto || (format == fmtOM && o.SkipST && (valid || hangs < 2))
 	for {
 		et, err := p.Next()
 		if err == io.EOF {
@@ -460,8 +479,14 @@ func main() {
 			return
 		}
 		seen[key] = true
-		r := drive(payload, format, o)
+		r := drive(payload, format, o, valid)
 		meta.Evaluations++
+		if r.hung {
+			meta.GoViol = append(meta.GoViol, gallina.GoViolation{ID: "hang-" + strconv.Itoa(len(meta.GoViol)), Shape: "parser-hang-" + fmtNames[format],
+				What: fmt.Sprintf("%s on %q opts %+v", r.panicked, payload, o)})
+			meta.Hit("parser-hang-" + fmtNames[format])
+			return
+		}
 		if debug && (kind == "corpus" || valid && !r.ok) && valid {
 			fmt.Printf("=== case %d gen %d %s %+v ok=%v err=%q\n%s--- %s\n", id, gi, fmtNames[format], o, r.ok, r.errs, strings.ToValidUTF8(string(payload), "?"), strings.Join(r.human, "\n    "))
 		}
@@ -574,7 +599,7 @@ func main() {
 			}
 		}
 	}
-	n := f.Count(36, 300)
+	n := f.Count(36, 160)
 	for i := 0; i < n; i++ {
 		r := gen.Fork(f.Seed, i)
 		fams := genFamilies(r)
@@ -585,7 +610,7 @@ func main() {
 		runSet(i, r, fams, "gen", mut)
 	}
 	// more family sets, Go side only: the valid payload and mutants of it must not panic
-	extra := f.Count(200, 8000)
+	extra := f.Count(100, 3000)
 	for i := n; i < n+extra; i++ {
 		r := gen.Fork(f.Seed, i)
 		fams := genFamilies(r)
@@ -602,7 +627,7 @@ func main() {
 		}
 	}
 	// arbitrary bytes (Go side only): parsers must return entries or an error
-	nb := f.Count(2000, 200000)
+	nb := f.Count(2000, 100000)
 	for i := 0; i < nb; i++ {
 		r := gen.Fork(f.Seed, 5000000+i)
 		l := r.Intn(60)
@@ -618,6 +643,9 @@ func main() {
 			goOnly(meta, b, format, opts{TypeUnit: r.Bool(), SkipST: r.Bool(), KeepClassic: r.Bool()})
 		}
 	}
+	// reproducer (last, its goroutine keeps spinning): StartTimestamp's peek-ahead (parseComment with ignoreExemplar) never returns when
+	// the exemplar of a later line is followed by an unlexable character
+	goOnly(meta, []byte("# TYPE a counter\na_total{l=\"1\"} 1\na_total{l=\"2\"} 2 # {t=\"x\"}3\n# EOF\n"), fmtOM, opts{SkipST: true})
 	cf.Flush()
 	meta.Write(f.Out)
 }
@@ -631,10 +659,16 @@ func goOnly(meta *gallina.Meta, b []byte, format int, o opts) {
 	if lastFile != "" {
 		os.WriteFile(lastFile, []byte(fmt.Sprintf("%d %+v\n%q\n", format, o, b)), 0o644)
 	}
-	r := drive(b, format, o)
+	r := drive(b, format, o, false)
 	meta.Evaluations++
 	goOnlyN++
 	meta.Hit("bytes-only-" + fmtNames[format])
+	if r.hung {
+		meta.Hit("parser-hang-" + fmtNames[format])
+		meta.GoViol = append(meta.GoViol, gallina.GoViolation{ID: "bytes-" + strconv.Itoa(goOnlyN), Shape: "parser-hang-" + fmtNames[format],
+			What: fmt.Sprintf("%s on %q opts %+v", r.panicked, b, o)})
+		return
+	}
 	if r.panicked != "" {
 		meta.GoViol = append(meta.GoViol, gallina.GoViolation{ID: "bytes-" + strconv.Itoa(goOnlyN), Shape: "parser-panic-" + fmtNames[format],
 			What: fmt.Sprintf("%s on %q opts %+v", r.panicked, b, o)})
